@@ -16,10 +16,10 @@ from .common import describe_violation, result, compare_nlps, bind_positional
 
 PROP = 'C13'
 LEVEL = 'translation_validation'
-OPS = ['Q_sample', 'Q_value', 'Q_jac', 'SOLVE', 'SV', 'SVC', 'SI', 'ST', 'CC', 'AO', 'M', 'S', 'T', 'T0', 'TF', 'T0F']
+OPS = ['Q_sample', 'Q_value', 'Q_jac', 'SOLVE', 'SV', 'SVC', 'SI', 'ST', 'CC', 'AO', 'M', 'S', 'T', 'T0', 'TF', 'T0F', 'NV', 'NP', 'SIE', 'SVP']
 META = {
     'rule': 'instance = history: declare; transcribe; then a sequence over {sample, value, jacobian, solve_limited, set_value, set_initial, subject_to, clear_constraints, '
-            'add_objective, method, solver, set_T, set_t0 (number and FreeTime)} of length <=2 (quick, exhaustive) / 3 (thorough, sampled).  The evolved OCP and a FRESH OCP written with the final '
+            'add_objective, method, solver, set_T, set_t0 (number and FreeTime), declaring a NEW variable / a NEW parameter and using it, a time-expression guess, values of a per-interval parameter} of length <=2 (quick, exhaustive) / 3 (thorough, sampled).  The evolved OCP and a FRESH OCP written with the final '
             'specification are both transcribed by the real code; rows and objective must be equal for all x (z3), x0/p/solver iteration limit equal (ground).  Accepted '
             'outcome of an edit after transcription: equal NLP or an exception; silently different = violation.  distinct = by history',
     'functions': ['rockit/ocp.py:_transcribed/_transcribe/_untranscribe/solver/solve_limited', 'rockit/stage.py:_set_transcribed and every mutator (set_T, set_t0, subject_to, clear_constraints, add_objective, method, set_value, set_initial)',
@@ -129,6 +129,38 @@ def apply_op(op, b, spec, cfg, state):
         v = Fr(n, 8)
         ocp.set_t0(FreeTime(float(v)))
         spec.t0 = ('free', v)
+    elif op == 'NV':
+        # a NEW decision variable declared after the transcription, used in the objective and in a constraint
+        nm = 'nv%d' % n
+        b.vsym[nm] = ocp.variable()
+        spec.vars = list(spec.vars) + [Sym(nm)]
+        term = Vg(nm) * Vg(nm) * (1 + n)
+        c = Con('>=', Vg(nm), at_t0(X(1)) - n)
+        ocp.add_objective(b.mx(term))
+        ocp.subject_to(b.mx(c.lhs) >= b.mx(c.rhs))
+        spec.objective = list(spec.objective) + [term]
+        spec.cons = list(spec.cons) + [c]
+        state['new_vars'] = state.get('new_vars', 0) + 1
+    elif op == 'NP':
+        # a NEW parameter declared (and given a value) after the transcription, used in a constraint
+        nm = 'np%d' % n
+        v = Fr(9 + n, 4)
+        b.psym[nm] = ocp.parameter()
+        ocp.set_value(b.psym[nm], float(v))
+        spec.params = list(spec.params) + [Sym(nm, value=v)]
+        c = Con('<=', X(1), Pg(nm) + 6)
+        ocp.subject_to(b.mx(c.lhs) <= b.mx(c.rhs))
+        spec.cons = list(spec.cons) + [c]
+    elif op == 'SIE':
+        # a guess that is an expression of time
+        e = t * (1 + n) + Fr(1, 2)
+        ocp.set_initial(b.us[0], b.mx(e))
+        spec.initial = [(tg, vl) for tg, vl in spec.initial if not (tg.op == 'u' and tg.a[0] == 0)] + [(U(0), e)]
+    elif op == 'SVP':
+        # values of a per-interval parameter (one column per control interval)
+        vals = [Fr(10 * n + k, 4) for k in range(cfg.N)]
+        ocp.set_value(b.psym['pc'], ca.DM([[float(v) for v in vals]]))
+        [p for p in spec.params if p.name == 'pc'][0].value = [list(vals)]
     else:
         raise ValueError(op)
     return spec, cfg
@@ -229,7 +261,7 @@ def run(item):
             rejected = 're-transcription raised: %s' % e
     if rejected is not None:
         # an edit that is rejected is an accepted outcome; queries and value/guess updates must never raise
-        if all(o in ('Q_sample', 'Q_value', 'Q_jac', 'SOLVE', 'SV', 'SVC', 'SI') for o in hist):
+        if all(o in ('Q_sample', 'Q_value', 'Q_jac', 'SOLVE', 'SV', 'SVC', 'SI', 'SIE', 'SVP') for o in hist):
             viol.append({'property': PROP, 'key': 'query-or-update-raised', 'label': str(hist), 'detail': rejected, 'cfg': repr(cfg), 'spec': repr(spec)})
         res = {'stats': {}, 'obligations': 1, 'discharged': 0 if viol else 1, 'violations': viol, 'rejected': rejected,
                'shape': 'history %s %s' % (hist, cfg.method), 'nontrivial': [],
@@ -267,12 +299,13 @@ def run(item):
             ch.proved.append('solver options in effect')
     # transcribing never alters what the user declared
     declared_after = (len(b.ocp.states), len(b.ocp.controls), sum(len(v) for v in b.ocp.variables.values()))
+    declared_before = (declared_before[0], declared_before[1], declared_before[2] + state.get('new_vars', 0))
     if declared_after != declared_before:
         V('declared-lists-changed', 'states/controls/variables', 'declared lists changed by transcription: %s -> %s' % (declared_before, declared_after))
     else:
         ch.proved.append('declared lists unchanged')
     twins_ok = twins_bad = 0
-    if item.get('twin', True) and any(o in ('ST', 'AO', 'T', 'T0', 'TF', 'T0F') for o in hist) and 'M' not in hist and 'CC' not in hist:
+    if item.get('twin', True) and any(o in ('ST', 'AO', 'T', 'T0', 'TF', 'T0F', 'NV', 'NP') for o in hist) and 'M' not in hist and 'CC' not in hist:
         # vacuity guard: against a fresh OCP with the ORIGINAL specification the comparison must fail
         with quiet():
             b0 = declare(item['spec'], item['cfg'])
